@@ -290,7 +290,11 @@ Section AB.
             | Done r =>
                 let ne := mkEntry (r_bscore r) (r_best r) (Z.of_nat depth) Exact in
                 let st' := r_st r in
-                (Done (r_best r, r_bscore r, false), with_tbl st' (store_root (s_tbl st') (ghash g) ne))
+                (Done (r_best r, r_bscore r, false),
+                 match r_best r with
+                 | Some _ => with_tbl st' (store_root (s_tbl st') (ghash g) ne)
+                 | None => st'
+                 end)
             | Aborted sa => (Aborted sa, sa)
             | OutOfFuel => (OutOfFuel, st)
             end
@@ -850,7 +854,11 @@ Section ABProofs.
         | Done r =>
             let ne := mkEntry (r_bscore r) (r_best r) (Z.of_nat depth) Exact in
             let st' := r_st r in
-            (Done (r_best r, r_bscore r, false), with_tbl st' (store_root (s_tbl st') (ghash g) ne))
+            (Done (r_best r, r_bscore r, false),
+                 match r_best r with
+                 | Some _ => with_tbl st' (store_root (s_tbl st') (ghash g) ne)
+                 | None => st'
+                 end)
         | Aborted sa => (Aborted sa, sa)
         | OutOfFuel => (OutOfFuel, st)
         end
@@ -904,7 +912,7 @@ Section ABProofs.
         lia.
     - rewrite E'. eexists; eexists; split.
       + cbn [r_bscore] in Hr. rewrite (Hfst sorted Hperm). rewrite <- Hr. reflexivity.
-      + apply with_tbl_ok. exact Hst'.
+      + destruct (r_best r'); [apply with_tbl_ok; exact Hst' | exact Hst'].
   Qed.
 End ABProofs.
 
